@@ -64,6 +64,29 @@ def mesh_catalogue(tier):
     M.append(("utet_L0", "simplex", 3, "box", {"fac": "unitcube", "level": 0}, 6))
     if th:
         M.append(("utet_L1", "simplex", 3, "box", {"fac": "unitcube", "level": 1}, 72))
+    # ---- shipped meshes (coordinates that are not dyadic are snapped to multiples of 2^-snap; the specification verifies
+    #      that the snapped mesh is still valid and of the claimed class) ----
+    def shipped(name, shape, dim, cls, ncells, nref=0, snap=None, quick=False):
+        if not (th or quick):
+            return
+        src = {"file": os.path.join(MESHDIR, name + ".xml"), "nref": nref}
+        if snap:
+            src["snap"] = snap
+        mult = (4 if dim == 2 else 8) ** nref
+        M.append(("%s_L%d" % (name.replace("-", "_"), nref), shape, dim, cls, src, ncells * mult))
+    shipped("l-shape-quad", "hypercube", 2, "affine", 3, quick=True)
+    shipped("l-shape-quad", "hypercube", 2, "affine", 3, nref=1)
+    shipped("unit-square-quad-aniso", "hypercube", 2, "box", 4)
+    shipped("square_circle_hole_quad_9", "hypercube", 2, "general", 8, snap=5, quick=True)
+    shipped("square_circle_hole_quad_9", "hypercube", 2, "general", 8, nref=1, snap=5)
+    shipped("unit_circle_quad_12", "hypercube", 2, "general", 12, snap=5)
+    shipped("unit_ring_quad_32", "hypercube", 2, "general", 32, snap=5)
+    shipped("flowbench_c2d_01_quad_32", "hypercube", 2, "general", 32, snap=5)
+    shipped("l-shape-tria", "simplex", 2, "affine", 12, quick=True)
+    shipped("unit_circle_tria_6", "simplex", 2, "affine", 6, snap=5)
+    shipped("heat-v77-tria", "simplex", 2, "affine", 32, snap=5)
+    shipped("cube_cylinder_hole_hexa_8", "hypercube", 3, "general", 8, snap=4, quick=True)
+    shipped("flowbench_s3d_01_hexa_11", "hypercube", 3, "general", 11, snap=4)
     return M
 
 
@@ -76,7 +99,7 @@ def gen_plans(chk, tier):
         cfg = "gen_c16_%d_%s%d.cfg" % (os.getpid(), shape, dim)
         with open(os.path.join(vlib.SPEC, cfg), "w") as f:
             f.write("SPECIFICATION Spec\nCONSTANTS DegSlack = %d\n PlanShapes = {\"%s\"}\n PlanDims = {%d}\n PairKind = \"%s\"\n"
-                    "INVARIANTS MomLaw FormLaw Emit\nCHECK_DEADLOCK FALSE\n" % (1 if tier == "thorough" else 0, shape, dim, "all" if dim == 2 else "same"))
+                    "INVARIANTS MomLaw FormLaw Emit\nCHECK_DEADLOCK FALSE\n" % (2 if tier == "thorough" else 0, shape, dim, "all" if dim == 2 else "same"))
         jobs.append((cfg, shape, dim))
     plans = {}
     try:
@@ -284,7 +307,7 @@ def _run(chk, tier, gdir):
     r = vlib.tlc("RefCellSanity", timeout=600)
     chk.add_tlc(r, "RefCellSanity (rotation tables)")
     rots = {(c["fam"], c["dim"]): c["rot"] for c in r.printed}
-    nvar = 2 if tier == "thorough" else 1
+    nvar = 3 if tier == "thorough" else 1
     maxcells = 100 if tier == "thorough" else 20
     first = {}
     for c in dumps:
